@@ -20,6 +20,7 @@ import ast
 
 from .. import lazy
 from ..astutil import call_name, calls, const_eval, dotted, names_in, param_names, stmts, walk_local, NotConst
+from ..exprnorm import same_expr
 from ..core import AnalysisError, Mutant
 from ..layout import float_field_width, parse_spec
 
@@ -87,8 +88,14 @@ def concat_fstring(e):
 def reader_slices(func, var="line"):
     """{(a,b): text of the statement}"""
     out = {}
+    # slices that only occur inside messages (warnings, exceptions, f-strings) are not reads of the record
+    in_message = set()
     for n in walk_local(func):
-        if isinstance(n, ast.Subscript) and isinstance(n.slice, ast.Slice) \
+        if isinstance(n, ast.JoinedStr) or isinstance(n, ast.Raise) or (isinstance(n, ast.Call) and (call_name(n) or "").endswith(("warn", "Warning", "Error"))):
+            for x in ast.walk(n):
+                in_message.add(id(x))
+    for n in walk_local(func):
+        if isinstance(n, ast.Subscript) and isinstance(n.slice, ast.Slice) and id(n) not in in_message \
                 and isinstance(n.slice.lower, ast.Constant) and isinstance(n.slice.upper, ast.Constant):
             out[(n.slice.lower.value, n.slice.upper.value)] = n
     return out
@@ -210,14 +217,46 @@ def run(ctx):
                f"_is_v2000_compatible is asked about {[ast.unparse(a) for a in c.args]} but the counts line "
                f"formats {count_exprs}: a molecule whose real count does not fit is written with shifted columns",
                c.lineno)
-    # the V2000 branch is only taken when compatible
-    for case in [n for n in ast.walk(wf) if isinstance(n, ast.match_case)]:
-        v2 = [c for c in ast.walk(case) if isinstance(c, ast.Call) and call_name(c) == "_write_structure_to_ctab_v2000"]
-        if v2:
-            ctx.ob("R2.v2000-behind-guard", CTAB, "write_structure_to_ctab", f"case {ast.unparse(case.pattern)}",
-                   any(isinstance(c, ast.Call) and call_name(c) == "_is_v2000_compatible" for c in ast.walk(case)),
-                   "the V2000 writer is reachable without the compatibility test", case.pattern.lineno
-                   if hasattr(case.pattern, "lineno") else wf.lineno)
+    # the V2000 branch is only taken when compatible: every call of the V2000 writer sits in the true arm of
+    # `if _is_v2000_compatible(..)` or follows `if not _is_v2000_compatible(..): raise` in its block
+    def is_compat(e):
+        return isinstance(e, ast.Call) and call_name(e) == "_is_v2000_compatible"
+
+    def guarded(block, inherited):
+        res = []
+        g = inherited
+        for st_ in block:
+            if isinstance(st_, ast.If):
+                t = st_.test
+                if is_compat(t):
+                    res += guarded(st_.body, True) + guarded(st_.orelse, g)
+                    continue
+                if isinstance(t, ast.UnaryOp) and isinstance(t.op, ast.Not) and is_compat(t.operand):
+                    res += guarded(st_.body, g)
+                    if st_.body and isinstance(st_.body[-1], ast.Raise) and not st_.orelse:
+                        g = True          # the rest of the block is only reached when compatible
+                    else:
+                        res += guarded(st_.orelse, True)
+                    continue
+                res += guarded(st_.body, g) + guarded(st_.orelse, g)
+                continue
+            if isinstance(st_, ast.Match):
+                for cs in st_.cases:
+                    res += guarded(cs.body, g)
+                continue
+            for sub in ("body", "orelse", "finalbody"):
+                if isinstance(getattr(st_, sub, None), list):
+                    res += guarded(getattr(st_, sub), g)
+            for c in ast.walk(st_) if not isinstance(st_, (ast.For, ast.While, ast.With, ast.Try)) else []:
+                if isinstance(c, ast.Call) and call_name(c) == "_write_structure_to_ctab_v2000":
+                    res.append((c, g))
+        return res
+
+    v2calls = guarded(wf.body, False)
+    ctx.floor("R2.v2000-calls", len(v2calls), 2)
+    for c, g in v2calls:
+        ctx.ob("R2.v2000-behind-guard", CTAB, "write_structure_to_ctab", f"{ast.unparse(c)[:60]} @{c.lineno - wf.lineno}", g,
+               "the V2000 writer is reachable without a passed _is_v2000_compatible test (a refusing guard must raise)", c.lineno)
     # coordinates
     K = None
     for st in stmts(wr):
@@ -246,8 +285,8 @@ def run(ctx):
            bound is not None and bound <= el[2]["width"],
            "an element symbol longer than its field shifts the charge column; no guard refuses it", wr.lineno)
     ctx.ob("R2.nan-refused", CTAB, "write_structure_to_ctab", "np.isnan(atoms.coord).any() -> raise",
-           any(isinstance(st, ast.If) and "isnan(atoms.coord)" in ast.unparse(st.test) and any(isinstance(b, ast.Raise) for b in st.body)
-               for st in stmts(wf)), "NaN coordinates must be refused", wf.lineno)
+           any(isinstance(st, ast.If) and same_expr(st.test, "np.isnan(atoms.coord).any()") and any(isinstance(b, ast.Raise) for b in st.body)
+               for st in stmts(wf)), "a structure with any NaN coordinate must be refused", wf.lineno)
 
     # ---------------- R3 tables -------------------------------------------------
     bt = const_eval(s.module_assign("BOND_TYPE_MAPPING"))
@@ -500,6 +539,9 @@ MUTANTS = [
            '    for i, coord_name in enumerate(["x", "y", "z"]):\n        n_coord_digits = number_of_integer_digits(atoms.coord[:, 0])\n        if n_coord_digits > 5:\n            raise BadStructureError(\n                f"5 pre-decimal columns for {coord_name}-coordinates are "\n                f"available, but array would require {n_coord_digits}"\n            )\n    if any(',
            "R2.coordinate-axes"),
     Mutant("header-program-not-truncated", HEAD, '            f"{self.program:>8.8}"\n', '            f"{self.program:>8}"\n', "R2.header-truncated"),
+    Mutant("nan-all-only", CTAB, "    if np.isnan(atoms.coord).any():", "    if np.isnan(atoms.coord).all():", "R2.nan-refused"),
+    Mutant("v2000-guard-only-warns", CTAB, "            ):\n                raise ValueError(\n                    \"The given number of atoms or bonds is too large for V2000 format\"", "            ):\n                warnings.warn(\n                    \"The given number of atoms or bonds is too large for V2000 format\", "R2.v2000-behind-guard"),
+    Mutant("bond-type-slice-narrow", CTAB, "BOND_TYPE_MAPPING.get(int(line[6:9]))", "BOND_TYPE_MAPPING.get(int(line[7:9]))", "R1.bond-columns"),
     Mutant("nan-accepted", CTAB, '    if np.isnan(atoms.coord).any():\n        raise BadStructureError("Input AtomArray has NaN coordinates")\n', "", "R2.nan-refused"),
     Mutant("unknown-version-as-v2000", CTAB, "        case unkown_version:\n            raise ValueError(f\"Unknown CTAB version '{unkown_version}'\")\n",
            "        case _:\n            return _write_structure_to_ctab_v2000(atoms, default_bond_type)\n", "R2.v2000-behind-guard"),
